@@ -27,8 +27,13 @@ OBLIGATIONS = [
              "longer than one block) and byte p is byte p of the decoded data; unbounded size/segsize, k per case"),
     chx("mutable_trim", "C36_h", "h_mutable_trim", timeout=T,
         cases={"quick": [{"k": i, "_label": "k%d" % i} for i in (1, 3, 4)], "thorough": [{"k": i, "_label": "k%d" % i} for i in (1, 2, 3, 4, 5, 7)]},
-        desc="Retrieve._setup_encoding_parameters + _decode_blocks under the same ideal code: every non-tail segment is delivered at full segment size and the "
+        desc="Retrieve._setup_encoding_parameters + _decode_blocks under the same ideal code, for an arbitrary symbolic read range [offset, offset+length) and any "
+             "segment of that read (first/last segment of the read are the ones holding its first/last byte): every non-tail segment is delivered at full segment size and the "
              "tail at datalength %% segsize (or a full segment), also when the padded tail equals the segment size and both decoders are the same object"),
+    chx("send_pairing", "C36_h", "h_send_pairing", timeout=T, bounds={"quick": {"n": 4}, "thorough": {"n": 6}},
+        desc="Encoder._send_segment/send_block with N tagged codec blocks (share ids listed in any rotation) and an arbitrary subset of shares still placed: "
+             "the landlord of share s receives exactly block s of this segment (by share number, not by position), non-placed shares are skipped, and the "
+             "block hash recorded for (s, segment) is the hash of that same block (path-per-input over the 2^N landlord sets)"),
     chx("encode_checks", "C36_h", "h_encode_checks", timeout=T, bounds={"quick": {"n_max": 3}, "thorough": {"n_max": 6}},
         desc="CRSEncoder.encode: every piece must have exactly the block size (one piece off by any delta => AssertionError, zfec not called); more desired ids than N refused; "
              "default ids are 0..N-1; zfec.encode called once with the pieces and ids; (shares, ids) returned"),
